@@ -66,6 +66,16 @@ class C07(vlib.Check):
                 yield 'find %s %s %02x 0' % (cs, h, v)
                 yield 'findl %s %s %02x %d' % (cs, h, v, SIZE_MAX)
                 yield 'has %s %s %02x' % (cs, h, v)
+        # --- long haystacks: an occurrence straddling every 1 KiB boundary counted from either end
+        for h, n, o in block_boundary_subjects(rng, thorough, light=not thorough):
+            size = len(h)
+            for cs in 'si':
+                hh = h if cs == 's' else h.swapcase()
+                for p0 in ((0, o) if not thorough else (0, max(o - 1, 0), o, o + 1)):
+                    yield 'find %s %s %s %d' % (cs, hx(hh), hx(n), p0)
+                for mx in ((size, o + len(n)) if not thorough else (size, size - 1, o + len(n), o + len(n) - 1, SIZE_MAX)):
+                    yield 'findl %s %s %s %d' % (cs, hx(hh), hx(n), mx)
+                yield 'has %s %s %s' % (cs, hx(hh), hx(n))
         # --- exhaustive sweeps (digest mode)
         a3 = [0x61, 0x62, 0x41]
         for h in strings_upto(a3, 8 if thorough else 6):
